@@ -1,5 +1,6 @@
 ---------------------------- MODULE OwnGramEmit ----------------------------
 EXTENDS OwnGram
 ASSUME Emit
+ASSUME EmitAssign
 ASSUME PrintT("UNIVERSE " \o ToString(Cardinality(Exprs)))
 =============================================================================
